@@ -48,4 +48,13 @@ def gen_cases(rng, tier, count=None):
 def run_case(case):
     m = SequOOLMon()
     ctx = drive(case, [m], own=PROP)
-    return result_of(ctx, [m], prefix=PROP, nontrivial=lambda ctx, res: res["obs"].get("opens_judged", 0) >= 5)
+    res = result_of(ctx, [m], prefix=PROP, nontrivial=lambda ctx, res: res["obs"].get("opens_judged", 0) >= 5)
+    cr = ctx.crash
+    if cr and case["T"] > case["n"] and cr.get("round", 0) >= case["n"] and not cr.get("watchdog") and not cr.get("harness"):
+        # the runs that are driven beyond the declared budget in order to see the schedule through to its exhaustion
+        # (C01 stops at T = n, so nobody else looks there): an exception or a hang before the schedule is exhausted
+        # means the schedule the property describes cannot be carried out
+        res["viol"].append({"pred": "C12:raises_or_hangs_before_the_schedule_is_exhausted", "round": cr.get("round"),
+                            "detail": {"exc": cr.get("exc"), "site": cr.get("site"), "msg": cr.get("msg"),
+                                       "n": case["n"], "part": case["part"]}})
+    return res
